@@ -177,7 +177,7 @@ func c10Run(c c10Case, st *fw.Stats) []fw.Viol {
 var c10Spec = fw.Spec[c10Case]{
 	ID:    "C10",
 	Level: "model_checking",
-	Rule: "complete enumeration: all request histories of length <=3 (quick: on 7 of the 12 router configurations, <=2 on the others; thorough 4 on all 13 configurations) over 32 request kinds (handler stores values / records errors / aborts / sets status and writes / replaces c.Resp / replaces c.Req / calls SetHandlers / dynamic routes with params / 404 / 405 / panics (also after recording an uncommitted status) / edits the url.Values of its query / renders a view that fails half way / renders a view / hijacks the connection / streams with Flush / re-dispatches with HandleContext / issues a nested ServeHTTP / copies the context / adds an entry to the parameter map of a route without variables) x {OnPanic hook} x {OnError handler} x {caching, two entries - one entry on the configurations with a hook}, plus four configurations without any global middleware and with custom NotFound / NotAllowed chains, and one whose NotAllowed handler edits the allowed-methods slice it is given; a probe installed as first global middleware snapshots Data, Params, Errors, abort state, status, length, chain length, writer and request identity at entry (the parameters found at entry must also be exactly those the request's route yields - an absolute expectation no twin of the same process is needed for), plus one request through handlers.Timeout (deadline passed / far) whose handler the harness holds inside the chain: ServeHTTP must not return meanwhile; " +
+	Rule: "complete enumeration: all request histories of length <=3 (quick: on 7 of the 12 router configurations, <=2 on the others; thorough 4 on all 13 configurations) over 32 request kinds (handler stores values / records errors / aborts / sets status and writes / replaces c.Resp / replaces c.Req / calls SetHandlers / dynamic routes with params / 404 / 405 / panics (also after recording an uncommitted status) / edits the url.Values of its query / renders a view that fails half way / renders a view / hijacks the connection / streams with Flush / re-dispatches with HandleContext / issues a nested ServeHTTP / copies the context / hands the request to a second router mounted through the net/http adapter / decorates the URL value BuildURL gave it / adds an entry to the parameter map of a route without variables) x {OnPanic hook} x {OnError handler} x {caching, two entries - one entry on the configurations with a hook}, plus four configurations without any global middleware and with custom NotFound / NotAllowed chains, and one whose NotAllowed handler edits the allowed-methods slice it is given; a probe installed as first global middleware snapshots Data, Params, Errors, abort state, status, length, chain length, writer and request identity at entry (the parameters found at entry must also be exactly those the request's route yields - an absolute expectation no twin of the same process is needed for), plus one request through handlers.Timeout (deadline passed / far) whose handler the harness holds inside the chain: ServeHTTP must not return meanwhile; " +
 		"differential oracle: the last request observes exactly what it observes as first request on a fresh identical router; non-trivial = history whose last request really ran on a context used earlier in the history (pointer identity)",
 	Assume: []string{"sync.Pool is the real one here (reuse is counted, not forced); the controlled pool of C03 forces reuse deterministically"},
 	Bounds: func(tier string) map[string]any {
